@@ -178,6 +178,7 @@ type Unit struct {
 	quants      []*quantAssumption
 	boundNow   map[string]bool
 	retReach []Term
+	retWhere []string
 }
 
 var unitSeq atomic.Int64
